@@ -71,16 +71,17 @@ def _mc(name, consts, invariants, constraints=(), workers=4, timeout=1500):
 def explore(res, tier):
     q = tier == "quick"
     n3, n4, n5 = {1, 2, 3}, {1, 2, 3, 4}, {1, 2, 3, 4, 5}
-    pos = [("cmv n_clash=0 + irreducibility", {"Node": n4, "MaxEdges": 3, "NClash": 0}, CMV_INV + CMV_ONCE, 5),
-           ("cmv n_clash=1", {"Node": n4, "MaxEdges": 3, "NClash": 1}, CMV_INV, 5),
-           ("hoad orders {1,2}", {"Model": "hoad", "HN": 3, "HTime": 1, "HOrders": {1, 2}}, HOAD_INV, 3),
+    pos = [("cmv n_clash=1", {"Node": n4, "MaxEdges": 3, "NClash": 1}, CMV_INV, 6),
+           ("cmv n_clash=0 + irreducibility, 3 nodes", {"Node": n3, "MaxEdges": 3, "NClash": 0}, CMV_INV + CMV_ONCE, 2),
+           ("cmv n_clash=0 + irreducibility, 2 hyperedges", {"Node": n4, "MaxEdges": 2, "NClash": 0}, CMV_INV + CMV_ONCE, 2),
            ("hoad two time steps", {"Model": "hoad", "HN": 3, "HTime": 2, "HOrders": {1}}, HOAD_INV, 2),
            ("hoad with draws, order 1", {"Model": "hoad", "HN": 3, "HTime": 1, "HOrders": {1}, "Hist": True}, HOAD_INV, 1),
            ("hoad with draws, order 2", {"Model": "hoad", "HN": 3, "HTime": 1, "HOrders": {2}, "Hist": True}, HOAD_INV, 1),
            ("hoad with draws, two time steps", {"Model": "hoad", "HN": 2, "HTime": 2, "HOrders": {1}, "Hist": True}, HOAD_INV, 1)]
     if not q:
-        pos += [("cmv n_clash=1, 4 hyperedges", {"Node": n4, "MaxEdges": 4, "NClash": 1}, CMV_INV, 6),
-                ("cmv n_clash=0, 5 nodes", {"Node": n5, "MaxEdges": 3, "NClash": 0}, CMV_INV, 6),
+        pos += [("cmv n_clash=0 + irreducibility, 4 nodes", {"Node": n4, "MaxEdges": 3, "NClash": 0}, CMV_INV + CMV_ONCE, 5),
+                ("cmv n_clash=0, 5 nodes", {"Node": n5, "MaxEdges": 3, "NClash": 0}, CMV_INV, 8),
+                ("hoad orders {1,2}", {"Model": "hoad", "HN": 3, "HTime": 1, "HOrders": {1, 2}}, HOAD_INV, 3),
                 ("hoad 4 nodes order 2", {"Model": "hoad", "HN": 4, "HTime": 1, "HOrders": {2}}, HOAD_INV, 2),
                 ("hoad with draws, orders {1,2}", {"Model": "hoad", "HN": 2, "HTime": 1, "HOrders": {1, 2}, "Hist": True}, HOAD_INV, 1)]
     # spec mutants / negative controls: TLC must report a violation
@@ -442,12 +443,13 @@ def validate(cases, tier):
               "temp": [i for i, c in enumerate(cases) if c["fn"] == "hoad"]}
     rejects, states = [], 0
     strip = ("labels", "values", "err", "proxy_unused", "malformed")
+    procs = {"hg": 4, "temp": 2} if tier == "quick" else {"hg": 8, "temp": 4}
     with cf.ThreadPoolExecutor(max_workers=2) as ex:
         futs = {}
         for g, idx in groups.items():
             if idx:
                 sub = [{k: v for k, v in cases[i].items() if k not in strip} for i in idx]
-                futs[g] = ex.submit(K.run_cases, "Trace_X04", sub, {"Kind": g}, 9 if g == "hg" else 4, None, 1500)
+                futs[g] = ex.submit(K.run_cases, "Trace_X04", sub, {"Kind": g}, procs[g], None, 1500)
         for g, f in futs.items():
             v = f.result()
             rejects += [(groups[g][j], failed) for j, failed in v["rejects"]]
